@@ -173,9 +173,15 @@ def handle : Handler
               | .ws => { hdr := seen, qmd := qmd }
               | _ => { hdr := seen }
             let mOut := targetMD e o r
-            -- proxy: grpc-go itself turns the client's grpc-timeout into the deadline of the incoming context
+            -- proxy: grpc-go itself turns the client's grpc-timeout into the deadline of the incoming context;
+            -- a timeout the allow-list renames onto grpc-timeout is applied on top (context.WithTimeout: the earlier wins)
             let mDl := match e with
-              | .proxy => (match MD.get _sent timeoutKey with | v0 :: _ => GB.C12.decodeTimeout v0 | [] => none)
+              | .proxy =>
+                let c := (match MD.get _sent timeoutKey with | v0 :: _ => GB.C12.decodeTimeout v0 | [] => none)
+                (match c, targetDeadline e o r with
+                 | some a, some b => some (if b < a then b else a)
+                 | some a, none => some a
+                 | none, b => b)
               | _ => targetDeadline e o r
             match judgeReq e.wire o (items e r) mOut mDl out dl with
             | some v => v
